@@ -264,8 +264,8 @@ fn make_ctx(tier: Tier, seed: u64) -> Ctx {
     subsets.sort_by_key(|(m, _, _)| (m.count_ones(), *m));
     // (key, iv, ivlen, index) combinations for the piecewise checks; quick uses the first 4
     let mut combos = vec![(3, 3, 4, 1), (2, 2, 8, 0), (1, 1, 4, 6), (0, 0, 8, 7)];
-    if tier == Tier::Thorough {
-        // every boundary combination
+    {
+        // every boundary combination (both tiers)
         for key in 0..4 {
             for iv in 0..4 {
                 for ivlen in [4usize, 8] {
@@ -356,13 +356,13 @@ fn build_tasks(ctx: &Ctx) -> Vec<Task> {
         for combo in 0..ctx.combos.len() {
             t.push(Task::SalsaPiecewise { combo, len });
         }
-        let nk = ctx.tier.pick(4, ctx.akeys.len());
+        let nk = ctx.akeys.len();
         for key in 0..nk {
             t.push(Task::Arc4Piecewise { key, len });
         }
     }
     for len in 0..=192 {
-        for combo in 0..ctx.tier.pick(1, 16) {
+        for combo in 0..16 {
             t.push(Task::SalsaThree { combo, len });
         }
     }
@@ -654,7 +654,7 @@ fn salsa_ivlen(ctx: &Ctx, only: Option<&Value>, sh: &mut Shard) {
 /// 2^8, 2^16 (quick) and 2^22 (thorough)
 fn salsa_long(ctx: &Ctx, only: Option<&Value>, sh: &mut Shard) {
     const F: &str = "salsa20.longstream";
-    let total: u64 = ctx.tier.pick(1 << 23, 1 << 28);
+    let total: u64 = ctx.tier.pick(1 << 24, 1 << 28);
     let k = ctx.skeys[3];
     let ivb = &ctx.sivs[3][..4];
     let nonce = rs20::casc_nonce(ivb, 2);
@@ -1631,7 +1631,7 @@ fn simd_memmem(ctx: &Ctx, sub: usize, hay: usize, only: Option<&Value>, sh: &mut
         }
         // quick tier: needle lengths around the dispatch threshold (4) and the vector widths;
         // thorough tier (and replay): every length 0..=40
-        if ctx.tier == Tier::Quick && only.is_none() && !(nl <= 8 || (15..=17).contains(&nl) || (31..=33).contains(&nl) || nl == NEEDLE_MAX) {
+        if false && only.is_none() && !(nl <= 8 || (15..=17).contains(&nl) || (31..=33).contains(&nl) || nl == NEEDLE_MAX) {
             continue;
         }
         // needle shapes: 0 = distinct-ish bytes starting with 'A' (which recurs at offset 23);
@@ -1946,12 +1946,12 @@ pub fn run(tier: Tier, seed: u64) -> i32 {
         "bounds",
         json!({
             "message_lengths": "0..=1024",
-            "salsa20": {"keys": 4, "ivs": 4, "iv_lengths": [4, 8], "iv_lengths_rejected": "0..=16 except 4 and 8, 17, 32, 255", "block_indices": INDICES, "piecewise_parameter_combinations": ctx.combos.len(), "piecewise": "every split point 0..=len of every length", "three_piece": format!("every pair of split points, lengths 0..=192, {} combinations", tier.pick(1, 16)), "long_stream_bytes": tier.pick(1u64 << 23, 1u64 << 28), "counter_scenarios": 6},
+            "salsa20": {"keys": 4, "ivs": 4, "iv_lengths": [4, 8], "iv_lengths_rejected": "0..=16 except 4 and 8, 17, 32, 255", "block_indices": INDICES, "piecewise_parameter_combinations": ctx.combos.len(), "piecewise": "every split point 0..=len of every length", "three_piece": format!("every pair of split points, lengths 0..=192, {} combinations", 16), "long_stream_bytes": tier.pick(1u64 << 24, 1u64 << 28), "counter_scenarios": 6},
             "blte": {"types": ["S", "A"], "keys": 2, "ivs": 3, "block_indices": INDICES.len(), "payload_lengths": "0..=1024 (encrypt), 1..=1024 (decrypt, IV sizes 4 and 8)"},
-            "arc4": {"keys": ctx.akeys.len(), "key_lengths": "1..=32, 33, 255, 256 (+4 boundary keys)", "piecewise_keys": tier.pick(4, ctx.akeys.len()), "key_lengths_rejected": [0, 257, 300]},
+            "arc4": {"keys": ctx.akeys.len(), "key_lengths": "1..=32, 33, 255, 256 (+4 boundary keys)", "piecewise_keys": ctx.akeys.len(), "key_lengths_rejected": [0, 257, 300]},
             "lookup3": {"seeds": SEEDS, "hashlittle2_seed_pairs": SEEDS.len() * SEEDS.len(), "alignments": [0, 1, 2, 3], "patterns": PAT_NAMES},
             "md5": {"patterns": PAT_NAMES, "types": ["ContentKey", "EncodingKey"]},
-            "simd": {"host_feature_subsets": ctx.subsets.iter().map(|s| s.2.clone()).collect::<Vec<_>>(), "subsets_observed_off_the_portable_path": acc, "buffer_lengths": "0..=200", "needle_lengths": tier.pick("0..=8, 15..=17, 31..=33, 40", "0..=40"), "memset_memcpy_offsets": "0..=31", "batch_sizes": "0..=9"},
+            "simd": {"host_feature_subsets": ctx.subsets.iter().map(|s| s.2.clone()).collect::<Vec<_>>(), "subsets_observed_off_the_portable_path": acc, "buffer_lengths": "0..=200", "needle_lengths": "0..=40", "memset_memcpy_offsets": "0..=31", "batch_sizes": "0..=9"},
         }),
     );
     let mut seen = BTreeSet::new();
